@@ -219,7 +219,20 @@ pub fn run_case(ctx: &Ctx, case: u64, ev: &mut Ev) {
         }
     };
     let net_in = pre_func.as_ref().map_or(n, |f| f.outdim());
-    let (layers, _out_dim, neurons) = gen_net(&mut rng, net_in, rg, true);
+    let (mut layers, _out_dim, neurons) = gen_net(&mut rng, net_in, rg, true);
+    // 6 % (exact regimes, network fed directly with the input): the network and its precondition are
+    // translated so that every breakpoint lies 3e6 .. 8e6 away from the origin
+    let mut pre_poly = pre_poly;
+    if rg.is_exact() && pre_func.as_ref().map_or(true, |f| *f == Aff::identity(n)) && rng.chance(0.06) {
+        if let Some(L::Linear(a)) = layers.first_mut() {
+            let d = gen::far_shift(&mut rng, n);
+            a.shift_function(&d);
+            if let Some(p) = pre_poly.as_mut() {
+                p.shift_predicate(&d);
+            }
+            ev.inc("networks_translated_far_from_the_origin");
+        }
+    }
     let exact = rg.is_exact() && !refnet::has_inexact_op(&layers);
     ev.evaluations += 1;
     let desc = json!({"regime": rg.name(), "in_dim": n, "precondition_kind": pre_kind,
